@@ -381,9 +381,10 @@ theorem step_preserves (cfg : Cfg δ) (hproj : ∀ d, cfg.proj (cfg.proj d) = cf
       · rw [e]
         exact ⟨Nat.le_refl _, fun _ => good_load hi.seg.nodup⟩
       · exact hi.handles p (mem_alDel.mp hp).1
-    · refine ⟨hr.log, hr.ser, ?_, hr.contents⟩
-      rw [← hr.handles, alDel_map_val absH, List.map_cons, hr.log]
-      rfl
+    · refine ⟨?_, hr.ser, ?_, hr.contents⟩
+      · simp only [hr.log]
+      · rw [← hr.handles, alDel_map_val absH, List.map_cons, hr.log]
+        rfl
   | add h i d size =>
     cases hg : alGet s.handles h with
     | none =>
